@@ -190,7 +190,59 @@ def oracle_learn(ctx: Ctx, case):
         shutil.rmtree(tmp, ignore_errors=True)
 
 
-PARTS = {"learn": oracle_learn}
+_CHILD = r"""
+import sys, hashlib, collections
+import jax, numpy as np
+from jax import numpy as jnp, random as jr
+from lerax.env.classic_control import CartPole
+from lerax.space import Box, Dict
+from lerax.wrapper import TransformObservation
+from lerax.algorithm import PPO, A2C, DQN
+from lerax.policy import MLPActorCriticPolicy, MLPQPolicy
+algo_name, key = sys.argv[1], int(sys.argv[2])
+names = ["position", "velocity", "angle", "angular_velocity", "bias"]
+space = Dict(collections.OrderedDict((n, Box(-jnp.inf, jnp.inf, shape=(1,))) for n in names))
+def to_dict(o):
+    return collections.OrderedDict([(names[i], o[i:i + 1]) for i in range(4)] + [("bias", jnp.ones(1))])
+env = TransformObservation(CartPole(), to_dict, space)
+if algo_name == "DQN":
+    algo = DQN(buffer_size=64, learning_starts=4, num_envs=1, num_steps=4, batch_size=4, learning_rate=3e-3)
+    policy = MLPQPolicy(env, epsilon=0.3, width_size=8, depth=1, key=jr.key(key + 1))
+else:
+    algo = (PPO(num_envs=2, num_steps=4, num_batches=1, num_epochs=1, learning_rate=3e-3) if algo_name == "PPO" else A2C(num_envs=2, num_steps=4, learning_rate=3e-3))
+    policy = MLPActorCriticPolicy(env, feature_size=4, feature_width=8, feature_depth=1, value_width=8, value_depth=1, action_width=8, action_depth=1, key=jr.key(key + 1))
+out = algo.learn(env, policy, 24, key=jr.key(key))
+h = hashlib.sha256()
+for leaf in jax.tree.leaves(out):
+    if hasattr(leaf, "dtype"):
+        h.update(np.asarray(leaf).tobytes())
+print("DIGEST", h.hexdigest())
+"""
+
+
+def oracle_cross_process(ctx: Ctx, case):
+    """Training is a function of its inputs also across interpreter starts: the same (env with a 5-entry Dict observation,
+    policy key, hyper-parameters, key) in fresh processes with different PYTHONHASHSEED values gives one parameter digest."""
+    import os
+    import subprocess
+    import sys
+
+    procs = []
+    for hs in case["hash_seeds"]:
+        env = dict(os.environ, PYTHONHASHSEED=str(hs), JAX_PLATFORMS="cpu")
+        procs.append(subprocess.Popen([sys.executable, "-c", _CHILD, case["algo"], str(case["key"])], env=env, stdout=subprocess.PIPE, stderr=subprocess.PIPE, text=True))
+    digests = []
+    for hs, pr in zip(case["hash_seeds"], procs):
+        out, err = pr.communicate(timeout=1200)
+        lines = [l for l in out.splitlines() if l.startswith("DIGEST ")]
+        if pr.returncode != 0 or not lines:
+            ctx.fail("C11/cross-process/training-run-failed", tags={"algo": case["algo"]}, hash_seed=hs, stderr=err[-600:])
+        digests.append(lines[-1].split()[1])
+    ctx.check(len(set(digests)) == 1, "C11/cross-process/parameters-depend-on-the-interpreters-hash-seed", tags={"algo": case["algo"]}, digests=dict(zip(map(str, case["hash_seeds"]), digests)))
+    ctx.count(nontrivial=True, classes=["cross_process", case["algo"]], key=[case["algo"], case["key"], case["hash_seeds"]])
+
+
+PARTS = {"learn": oracle_learn, "cross_process": oracle_cross_process}
 
 
 def worker(ctx: Ctx, payload):
@@ -208,7 +260,7 @@ def run(ctx: Ctx):
         "hyper-parameters and keys: learn() twice with identical inputs (bit-identical array leaves required), once with another "
         "key (must differ), input policy compared with a host copy taken beforehand, and once per observer set (equal up to reassociation-level rounding: rtol 1e-4 / atol 1e-5, integer leaves exactly; see DESIGN 5.3) (None, [], a no-op "
         "callback, ProgressBar, LoggingCallback with a recording back end, LoggingCallback with Console+TensorBoard, a list of two) "
-        "against the unobserved run; plus one single-iteration run per algorithm (determinism, purity, policy moved; exempt from the other-key clause because a first Adam step is sign-only) and one three-iteration run per on-policy algorithm with a learning-rate warm-up schedule starting at 0 (same key twice, another key, purity). Non-trivial: training changed the policy and at least one observer set was attached; distinct "
+        "against the unobserved run; the same training in four fresh interpreter processes with different PYTHONHASHSEED values (5-entry Dict observation) must give one parameter digest; plus one single-iteration run per algorithm (determinism, purity, policy moved; exempt from the other-key clause because a first Adam step is sign-only) and one three-iteration run per on-policy algorithm with a learning-rate warm-up schedule starting at 0 (same key twice, another key, purity). Non-trivial: training changed the policy and at least one observer set was attached; distinct "
         "by (algorithm, env, hyper-parameters, key, observer sets)."
     )
     ctx.assumptions = ["bit-identity within one process / XLA build", "observer output is captured (stdout/stderr redirected, TensorBoard in a temp dir)"]
@@ -240,3 +292,5 @@ def run(ctx: Ctx):
         hp = {"num_envs": E, "num_steps": S, "num_batches": 1, "num_epochs": 1}
         payloads.append([{"algo": name, "env": envs[name][0], "hp": hp, "total": E * S + int(rng.integers(0, E * S)), "key": int(rng.integers(0, 2**31 - 10)), "pkey": int(rng.integers(0, 2**31 - 10)), "callback_sets": [], "short": True, "single_iteration": True}])
     run_pool(ctx, "checks.c11_reproducibility", "worker", payloads, procs=10)
+    for name in ("PPO",) if ctx.quick else ("PPO", "A2C", "DQN"):
+        ctx.run_cases("cross_process", [{"algo": name, "key": int(rng.integers(0, 2**31 - 10)), "hash_seeds": [1, 2, 3, 4]}], oracle_cross_process)
